@@ -25,6 +25,8 @@ theorem kits_nextLevel : nextLevelPairs.all (fun ij =>
     match kits[ij.1]?, kits[ij.2]? with
     | some v, some m => nextLevelOK (KitRow.geom m) v.k v.pat && (m.pat == moduleStructure (KitRow.geom m))
     | _, _ => false) = true := by decide +kernel
+/-- the cutters of the kits: sites spelt with nucleotides only, non-palindromic -/
+theorem kits_sites : kits.all (fun r => r.site.all Nt.isBase && (r.site != rcNt r.site)) = true := by decide +kernel
 theorem kits_count : 85 ≤ kits.length := by decide +kernel
 
 end Moclo.Tables
